@@ -140,6 +140,10 @@ Judge(e) ==
   \* its loop - an older pair still waiting in the slot is superseded and must be gone (the same condition, as C19 words it)
   /\ Chk(e.ev = "worker.election.taken" =>
            (P(e) \in ToSet(c.elecHist) \/ (c.m.phase = "election" /\ c.m.arg = P(e) /\ c.m.dec.res = "done")), "c19_conf_trigger_taken_is_not_the_newest_handed_over")
+  \* C17: the height the filter classifies messages by (the node's height, read by the worker when it takes an input) is the
+  \* height of the installed term - the last round the worker started after the registry handed out its context
+  /\ Chk(e.ev \in {"worker.msg.taken", "worker.election.taken", "worker.sync.taken"} => Cur(e)[1] = c.wantH,
+         "c17_conf_height_moved_without_a_round_of_that_height")
   \* ---- worker iterations
   \* a sync below the current height and an election for another position have no effect at all
   /\ Chk((e.ev \in {"ctx.for", "spi.enter", "timer.armed", "cb.round", "cb.commit", "send"} /\ (e.ev = "ctx.for" => e.g = "worker")
